@@ -353,6 +353,8 @@ class Interp:
                     v = v[1][el["f"]]
                 elif isinstance(v, tuple) and v[0] == 'range':
                     v = v[1] if name in ("start", 0) else v[2]
+                elif isinstance(v, tuple) and v[0] == 'closure' and isinstance(el["f"], int) and el["f"] < len(v[2]):
+                    v = v[2][el["f"]]           # a captured variable
                 else:
                     v = self.fresh_for(el.get("ty", ""), ctx, str(name))
             else:
@@ -481,6 +483,8 @@ class Interp:
                 return ('tuple', ops)
             if r["ak"] == "array":
                 return ('array', len(ops))
+            if r["ak"] == "closure" and r.get("def"):
+                return ('closure', r["def"], tuple(ops))      # a closure value: its body and what it captured
             return self.opaque()
         if k == "discr":
             v = self.load_place(st, r["place"])
@@ -757,7 +761,11 @@ class Interp:
                     st["body"], st["env"] = fr["body"], fr["env"]
                     st["gconst"] = fr.get("gconst")
                     body = st["body"]
-                    self.store(st, fr["dest"], ret if ret is not None else self.opaque())
+                    if ret is None:
+                        ret = self.opaque()
+                    if fr.get("wrap") == 'some':
+                        ret = ('some', ret)         # Option::map: the closure's result goes back into Some
+                    self.store(st, fr["dest"], ret)
                     bb = fr["target"]
                     visits = fr["visits"]
                     continue
@@ -913,6 +921,63 @@ class Interp:
                 alts = [(('some', a + b), [Lin(top) - (a + b)], "%s checked_add(%s, %s) is Some" % (where, a, b)),
                         (('none',), [(a + b) - top - 1], "%s checked_add(%s, %s) overflows" % (where, a, b))]
             return self.fork(st, t, visits, alts)
+        if name.startswith("std::option::Option::") and args and isinstance(args[0], tuple) and args[0][0] in ('some', 'none') and \
+                short in ("map_or", "map_or_else", "map", "unwrap_or", "unwrap_or_else", "and_then", "is_some_and", "unwrap_or_default"):
+            # the Option combinators on a value whose variant is known on this path: the closure that runs is looked into
+            a0 = args[0]
+
+            def run_closure(cv, cargs, wrap=None):
+                cb = self.facts.by_path.get(cv[1]) if isinstance(cv, tuple) and cv[0] == 'closure' else None
+                if cb is None or cb.argc != 1 + len(cargs):
+                    return False
+                env = {1: cv}
+                for i, a in enumerate(cargs):
+                    env[2 + i] = a
+                st["stack"].append({"body": st["body"], "env": st["env"], "dest": t["dest"], "target": t["target"], "visits": visits,
+                                    "gconst": st.get("gconst"), "wrap": wrap})
+                st["body"], st["env"] = cb, env
+                self.stats["inlined"] += 1
+                return True
+            some = a0[0] == 'some'
+            if short == "map_or" and len(args) == 3:
+                if not some:
+                    self.store(st, t["dest"], args[1])
+                    return None
+                if run_closure(args[2], [a0[1]]):
+                    return 'inlined'
+            elif short == "map_or_else" and len(args) == 3:
+                if run_closure(args[2], [a0[1]]) if some else run_closure(args[1], []):
+                    return 'inlined'
+            elif short == "map" and len(args) == 2:
+                if not some:
+                    self.store(st, t["dest"], ('none',))
+                    return None
+                if run_closure(args[1], [a0[1]], wrap='some'):
+                    return 'inlined'
+            elif short == "and_then" and len(args) == 2:
+                if not some:
+                    self.store(st, t["dest"], ('none',))
+                    return None
+                if run_closure(args[1], [a0[1]]):
+                    return 'inlined'
+            elif short == "is_some_and" and len(args) == 2:
+                if not some:
+                    self.store(st, t["dest"], ('bool', 0))
+                    return None
+                if run_closure(args[1], [a0[1]]):
+                    return 'inlined'
+            elif short == "unwrap_or" and len(args) == 2:
+                self.store(st, t["dest"], a0[1] if some else args[1])
+                return None
+            elif short == "unwrap_or_else" and len(args) == 2:
+                if some:
+                    self.store(st, t["dest"], a0[1])
+                    return None
+                if run_closure(args[1], []):
+                    return 'inlined'
+            elif short == "unwrap_or_default" and some:
+                self.store(st, t["dest"], a0[1])
+                return None
         if short in ("expect", "unwrap") and args and isinstance(args[0], tuple) and args[0][0] in ('some', 'none', 'ok'):
             if args[0][0] == 'none':
                 return 'forked'     # diverges
